@@ -70,6 +70,9 @@ RedArgs(p) == [j \in 1..TPLen(g, p) |-> stack[Len(stack) - TPLen(g, p) + j].a]
 
 Reduce ==
   /\ pc = "run" /\ Act(Top, TokType(nxt)).k = "reduce"
+  \* a production table that asks for more symbols than the stack holds above its bottom entry is
+  \* broken: no step here (the real parser cannot index its stack either), the trace is rejected
+  /\ TPLen(g, Act(Top, TokType(nxt)).n) < Len(stack)
   /\ LET p     == Act(Top, TokType(nxt)).n
          n     == TPLen(g, p)
          args  == RedArgs(p)
